@@ -37,38 +37,12 @@ Definition step_eqb (m o : step) : bool :=
   && list_eqb pair_eqb (s_pending m) (s_pending o).
 Definition same (m o : list step) : bool := list_eqb step_eqb m o.
 
-(* the recorded defects of the legacy handlers (known_findings.jsonl), as model variants:
-   today's lock nesting and/or the bool prevResourceResponse and/or the missing nil check *)
-Definition variants : list (nesting * cfg) :=
-  [ (TodayNesting, mkCfg false false); (TodayNesting, mkCfg true false);
-    (TodayNesting, mkCfg false true);  (TodayNesting, mkCfg true true);
-    (RepairedNesting, mkCfg false false); (RepairedNesting, mkCfg true false);
-    (RepairedNesting, mkCfg false true) ].
-
-Definition has_stuck (t : list step) : bool :=
-  existsb (fun x => match s_ret x with RStuck => true | _ => false end) t.
-Fixpoint has_response_panic (h : list op) (t : list step) : bool :=
-  match h, t with
-  | Response _ :: h', x :: t' => match s_ret x with RPanic => true | _ => has_response_panic h' t' end
-  | _ :: h', _ :: t' => has_response_panic h' t'
-  | _, _ => false
-  end.
-
-(* which recorded finding a run that equals a defective variant shows:
-   1 = a call never returns (self-deadlock), 2 = panic on a response with an empty queue,
-   3 = packs declined on the client's behalf although the client never declined *)
-Definition classify (h : list op) (t : list step) : N :=
-  if has_stuck t then 1 else if has_response_panic h t then 2 else 3.
-
+(* Findings C27-1..3 are fixed (commit c3c83c0): no verdict is excused any more.  A run that shows
+   one of them again (a call that never returns, a panic on a response with an empty queue, a pack
+   declined on the client's behalf although the client never declined) falsifies [holds_P] and is a
+   violation; any other departure from the model of today's code is a mismatch. *)
 Definition judge (c : case) : verdict :=
   let ob := observed c in
   let good := holds_P (proto c) (hb c) (ops c) ob in
-  if same (spec_run (proto c) (hb c) (ops c)) ob then (if good then VOk else VViolation)
-  else
-    match family_of (proto c) with
-    | Modern => if good then VMismatch else VViolation
-    | _ =>
-      if existsb (fun v => same (run_handler (fst v) (snd v) (proto c) (hb c) (ops c)) ob) variants
-      then VKnown (classify (ops c) ob)
-      else if good then VMismatch else VViolation
-    end.
+  if same (impl_run (proto c) (hb c) (ops c)) ob then (if good then VOk else VViolation)
+  else if good then VMismatch else VViolation.
